@@ -260,6 +260,27 @@ fn value_expr(e: &Expr) -> &Expr {
     }
 }
 
+/// `{ ..; let v: Head<..> = X; v }` (what an inlined helper with a declared return type leaves): `Head`
+fn annotated_block_head(e: &Expr) -> Option<String> {
+    if let Expr::Block(b) = peel_paren(e) {
+        let st = &b.block.stmts;
+        if st.len() >= 2 {
+            if let (Stmt::Local(l), Stmt::Expr(t, None)) = (&st[st.len() - 2], &st[st.len() - 1]) {
+                if let (Pat::Type(pt), Some(v)) = (&l.pat, path_single_ident(t)) {
+                    if let Pat::Ident(pi) = &*pt.pat {
+                        if pi.ident == v {
+                            if let Type::Path(tp) = &*pt.ty {
+                                return tp.path.segments.last().map(|s| s.ident.to_string());
+                            }
+                        }
+                    }
+                }
+            }
+        }
+    }
+    None
+}
+
 fn is_lock_unwrap(e: &Expr) -> Option<&Expr> {
     // P.lock().unwrap() | P.write().unwrap() | P.read().unwrap()
     if let Expr::MethodCall(m) = peel_paren(e) {
@@ -713,6 +734,11 @@ impl<'a> Elab<'a> {
                 }
                 _ => None,
             };
+            // `let x = &self.a.b;` (a shared reference to a field path of `self`, never `&mut`, `let` not `let mut`): alias
+            let alias_target = alias_target.or_else(|| match (peel_paren(&init_expr), &l.pat) {
+                (Expr::Reference(r), Pat::Ident(pi)) if r.mutability.is_none() && pi.mutability.is_none() && pi.by_ref.is_none() && last_field(&r.expr).is_some() && expr_to_string(&r.expr).starts_with("self") => Some((*r.expr).clone()),
+                _ => None,
+            });
             let alias_target = alias_target.or_else(|| match peel_paren(&init_expr) {
                 Expr::MethodCall(m) if m.method == "clone" && m.args.is_empty() => match last_field(&m.receiver) {
                     Some(f) if self.t.arc_fields.contains(&f) => Some((*m.receiver).clone()),
@@ -922,7 +948,7 @@ impl<'a> Elab<'a> {
             self.fold_temp_scope(init_expr.clone())
         };
         // `let x = { ..; guard }`: the block handed a tracked value out, `x` holds it now
-        if new_raii.is_none() && matches!(peel_paren(&init_expr), Expr::Block(_)) {
+        if new_raii.is_none() && matches!(peel_paren(&init_expr), Expr::Block(_) | Expr::Match(_)) {
             if let Some(r) = self.block_moved.take() {
                 if !matches!(r.kind, RaiiKind::Lock { .. }) {
                     new_raii = Some(r.kind);
@@ -936,6 +962,17 @@ impl<'a> Elab<'a> {
             self.unbind(n);
         }
         let mut pat = self.fold_pat(l.pat.clone());
+        // `let mut i = 0;` of a local the overlay talks about (a loop counter): an index, `usize` — stated so that a loop invariant
+        // can mention it before Rust's inference has met its first use as an index
+        if let (Pat::Ident(pi), Expr::Lit(ExprLit { lit: Lit::Int(li), .. })) = (&pat, peel_paren(&init_expr)) {
+            let n = pi.ident.to_string();
+            let named = self.spec.locals.iter().any(|(a, _)| *a == n) || self.local_ren.iter().any(|(_, actual)| *actual == n);
+            if named && li.suffix().is_empty() {
+                let inner = pat.clone();
+                let ty: Type = parse_quote!(usize);
+                pat = Pat::Type(PatType { attrs: vec![], pat: Box::new(inner), colon_token: Default::default(), ty: Box::new(ty) });
+            }
+        }
         // `let v = Vec::new()` / `VecDeque::with_capacity(n)`: say the container type, so that specifications can talk about `v@`
         // before the first `push` fixes the element type
         if let Pat::Ident(_) = &pat {
@@ -1190,6 +1227,17 @@ impl<'a> Elab<'a> {
         let sp = m.span();
         let method = m.method.to_string();
 
+        // `A.extend(B.drain(..))` moves every element of B to the back of A in order and leaves B empty: that is `A.append(&mut B)`
+        if method == "extend" && m.args.len() == 1 {
+            if let Expr::MethodCall(d) = peel_paren(&m.args[0]) {
+                if d.method == "drain" && d.args.len() == 1 && matches!(&d.args[0], Expr::Range(r) if r.start.is_none() && r.end.is_none()) {
+                    let a = (*m.receiver).clone();
+                    let b = (*d.receiver).clone();
+                    let app: ExprMethodCall = parse_quote!(#a.append(&mut #b));
+                    return self.do_method(app);
+                }
+            }
+        }
         // `X.drain(..).for_each(drop)` destroys every element in order and leaves X empty: that is `X.clear()`
         if method == "for_each" && m.args.len() == 1 {
             let is_drop = matches!(&m.args[0], Expr::Path(p) if { let n = path_to_string(&p.path); n == "drop" || n == "mem::drop" || n == "std::mem::drop" });
@@ -1329,8 +1377,22 @@ impl<'a> Elab<'a> {
                 }
             }
         }
-        // `X.map(|p| B)` in a unit that declares `resultmap` (every closure-`map` of the unit is on a Result)
-        if method == "map" && m.args.len() == 1 && self.u.resultmap {
+        // `X.map(drop)`: the value is destroyed, the shape stays
+        if method == "map" && m.args.len() == 1 && matches!(&m.args[0], Expr::Path(p) if { let n = path_to_string(&p.path); n == "drop" || n == "mem::drop" || n == "std::mem::drop" }) {
+            let head = annotated_block_head(&m.receiver);
+            let recv = self.fold_expr((*m.receiver).clone());
+            if self.u.resultmap || head.as_deref() == Some("Result") {
+                return parse_quote!(match #recv { Ok(_) => Ok(()), Err(__e) => Err(__e) });
+            }
+            if self.u.optionmap || head.as_deref() == Some("Option") {
+                return parse_quote!(match #recv { Some(_) => Some(()), None => None });
+            }
+            self.unsupported("`.map(drop)` on a value whose shape (Option / Result) the unit does not declare", sp);
+        }
+        // `X.map(|p| B)` in a unit that declares `resultmap` (every closure-`map` of the unit is on a Result), or on the block an
+        // inlined helper leaves, whose declared return type says `Result` / `Option`
+        let recv_head = annotated_block_head(&m.receiver);
+        if method == "map" && m.args.len() == 1 && (self.u.resultmap || recv_head.as_deref() == Some("Result")) && recv_head.as_deref() != Some("Option") {
             if let Expr::Closure(cl) = &m.args[0] {
                 if cl.inputs.len() == 1 {
                     let pat = match &cl.inputs[0] {
@@ -1347,7 +1409,7 @@ impl<'a> Elab<'a> {
             }
         }
         // `X.map(|p| B)` in a unit that declares `optionmap` (every closure-`map` of the unit is on an Option)
-        if method == "map" && m.args.len() == 1 && self.u.optionmap {
+        if method == "map" && m.args.len() == 1 && (self.u.optionmap || recv_head.as_deref() == Some("Option")) {
             if let Expr::Closure(cl) = &m.args[0] {
                 if cl.inputs.len() == 1 {
                     let pat = match &cl.inputs[0] {
@@ -1974,6 +2036,19 @@ impl<'a> Elab<'a> {
     }
 
     fn do_match(&mut self, m: ExprMatch) -> Expr {
+        // `match w.upgrade() { Some(p) => A, None => B }`  ==  `if let Some(p) = w.upgrade() { A } else { B }`
+        if self.is_upgrade_like(&m.expr) && m.arms.len() == 2 && m.arms.iter().all(|a| a.guard.is_none()) {
+            let some = m.arms.iter().find(|a| matches!(&a.pat, Pat::TupleStruct(ts) if ts.path.segments.last().unwrap().ident == "Some" && ts.elems.len() == 1));
+            let none = m.arms.iter().find(|a| matches!(&a.pat, Pat::Ident(pi) if pi.ident == "None") || matches!(&a.pat, Pat::Path(pp) if pp.path.is_ident("None")) || matches!(&a.pat, Pat::Wild(_)));
+            if let (Some(sa), Some(na)) = (some, none) {
+                let pat = &sa.pat;
+                let scrut = &m.expr;
+                let a = &sa.body;
+                let b = &na.body;
+                let rewritten: Expr = parse_quote!(if let #pat = #scrut { #a } else { #b });
+                return self.fold_expr(rewritten);
+            }
+        }
         // `match X.lock() { Ok(g) => A, Err(e) => B }` on a poisonable mutex: the lock is taken either way; the `Ok` arm runs when
         // the mutex is not poisoned (g aliases the data), the `Err` arm otherwise (e — after `into_inner()` — aliases the data)
         if self.u.poisonlocks && m.arms.len() == 2 {
@@ -2016,10 +2091,25 @@ impl<'a> Elab<'a> {
                 }
             }
         }
-        let acq = find_acquire(&m.expr);
+        let mut acq = find_acquire(&m.expr);
+        // `match p { Ok(permit) => .., Err(e) => .. }` on a local that holds the still-wrapped result of an acquisition: the
+        // value moves into the match, the `Ok` arm owns the permit
+        let mut acq_folded = false;
+        if acq.is_none() {
+            if let Some(n) = path_single_ident(peel_paren(&m.expr)) {
+                if let Some(i) = self.find_raii(&n) {
+                    if let RaiiKind::Permit { sem, field, wrapped: true } = &self.env.raii[i].kind {
+                        acq = Some((sem.clone(), field.clone()));
+                        acq_folded = true;
+                        self.env.raii.remove(i);
+                    }
+                }
+            }
+        }
         let scrut = self.fold_temp_scope(*m.expr);
         let mut brs = vec![];
         let mut heads = vec![];
+        let mut arm_moved: Vec<Option<Raii>> = vec![];
         for arm in m.arms.into_iter() {
             let mut pre: Vec<Raii> = vec![];
             // `Ok(IDENT)` of an acquisition
@@ -2028,7 +2118,7 @@ impl<'a> Elab<'a> {
                     if let Pat::TupleStruct(ts) = &arm.pat {
                         if ts.path.segments.last().unwrap().ident == "Ok" && ts.elems.len() == 1 {
                             if let Some(n) = Self::pat_single_ident(&ts.elems[0]) {
-                                let sem2 = self.fold_expr_quiet(sem.clone());
+                                let sem2 = if acq_folded { sem.clone() } else { self.fold_expr_quiet(sem.clone()) };
                                 pre.push(Raii { name: n, kind: RaiiKind::Permit { sem: sem2, field: field.clone(), wrapped: false }, depth: 0 });
                             }
                         }
@@ -2057,6 +2147,7 @@ impl<'a> Elab<'a> {
                 }
             }
             let guard = arm.guard.map(|(i, g)| (i, Box::new(self.fold_expr(*g))));
+            self.block_moved = None;
             let body = match *arm.body {
                 Expr::Block(b) => {
                     let b2 = self.fold_block_scoped(b.block, pre);
@@ -2075,11 +2166,19 @@ impl<'a> Elab<'a> {
             };
             let after = std::mem::replace(&mut self.env, saved);
             let d = diverges(&body);
+            arm_moved.push(if d { None } else { self.block_moved.take() });
             let pat = self.fold_pat(arm.pat);
             heads.push((pat, guard, arm.fat_arrow_token));
             brs.push((body, after, d));
         }
+        // the match hands a tracked value out if every arm that yields a value does
+        {
+            let live: Vec<&Option<Raii>> = arm_moved.iter().zip(brs.iter()).filter(|(_, b)| !b.2).map(|(m, _)| m).collect();
+            self.block_moved = if !live.is_empty() && live.iter().all(|m| m.is_some()) { live[0].clone() } else { None };
+        }
+        let moved_out = self.block_moved.clone();
         let bodies = self.reconcile(brs);
+        self.block_moved = moved_out;
         let arms: Vec<Arm> = heads
             .into_iter()
             .zip(bodies.into_iter())
@@ -2115,8 +2214,11 @@ impl<'a> Elab<'a> {
         if id >= 100 && !self.spec.loops.is_empty() {
             self.notes.push(format!("loop `{}` has no contract", h));
         }
+        // a contract applied by ordinal only (the anchored header text is gone: the loop was rewritten) is marked: `check` does not
+        // take a failure of, or after, such a loop for a violation (its invariant was written for another loop)
+        let flag = proc_macro2::Literal::u32_unsuffixed(if by_text.is_none() && id < 100 && self.spec.loops.get(&id).map(|l| l.at.is_some()).unwrap_or(false) { 1 } else { 0 });
         let n = proc_macro2::Literal::u32_unsuffixed(id as u32);
-        parse_quote!(__vx_loop!(#n);)
+        parse_quote!(__vx_loop!(#n, #flag);)
     }
 
     fn fold_loop_body(&mut self, b: Block) -> Block {
@@ -2274,6 +2376,24 @@ impl<'a> Elab<'a> {
         if let Some(rewritten) = self.expand_iter_chain(&f) {
             return self.fold_expr(rewritten);
         }
+        // `for PAT in [a, b, c] { BODY }` over an array literal (at most 8 elements, no break / continue in BODY): unrolled
+        if let Expr::Array(arr) = peel_paren(&f.expr) {
+            struct HasJump(bool);
+            impl<'ast> syn::visit::Visit<'ast> for HasJump {
+                fn visit_expr_break(&mut self, _: &'ast ExprBreak) { self.0 = true; }
+                fn visit_expr_continue(&mut self, _: &'ast ExprContinue) { self.0 = true; }
+                fn visit_expr_closure(&mut self, _: &'ast ExprClosure) {}
+            }
+            let mut hj = HasJump(false);
+            syn::visit::Visit::visit_block(&mut hj, &f.body);
+            if arr.elems.len() <= 8 && !hj.0 {
+                let pat = &*f.pat;
+                let body = &f.body;
+                let parts: Vec<Stmt> = arr.elems.iter().map(|e| -> Stmt { parse_quote!({ let #pat = #e; #body }) }).collect();
+                let unrolled: Expr = parse_quote!({ #(#parts)* });
+                return self.fold_expr(unrolled);
+            }
+        }
         let marker = self.loop_marker(format!("for {} in {}", f.pat.to_token_stream(), expr_to_string(&f.expr)));
         let pat = (*f.pat).clone();
         let iter = peel_paren(&f.expr).clone();
@@ -2412,6 +2532,15 @@ impl<'a> Elab<'a> {
 
     fn do_macro(&mut self, m: ExprMacro) -> Expr {
         let name = path_to_string(&m.mac.path);
+        if name == "__vx_tryerr" {
+            // the error value a `?` of an inlined helper returns (tools/vx/src/inline.rs): converted as `?` converts
+            let e: Expr = syn::parse2::<Expr>(m.mac.tokens.clone()).expect("__vx_tryerr");
+            let e = self.fold_expr(e);
+            if self.spec.attrs.iter().any(|a| a == "tryinto") {
+                return parse_quote!(Err(vx_into(#e)));
+            }
+            return parse_quote!(Err(#e));
+        }
         if name == "__vx_raw" {
             // replacement text of a lifted closure (`closurecall`): emitted as written
             return syn::parse2::<Expr>(m.mac.tokens.clone()).expect("__vx_raw");
